@@ -1604,3 +1604,31 @@ package ice
 //@   ensures[C15] @deletions_untouched forall(j, 0, len(drops), drops[j] != nil ==> bset(drops[j]) == old(bset(drops[j])) && brep(drops[j]) == old(brep(drops[j])))
 //@ func mergeStoredAndRemapSegment
 //@   ensures[C15] @deletions_untouched dropsI != nil ==> bset(dropsI) == old(bset(dropsI)) && brep(dropsI) == old(brep(dropsI))
+//@
+//@ // ---- C01: the frequency of a term in a document is the sum of the frequencies its field
+//@ // instances report (not the number of locations: a field indexed without term vectors has none) ----
+//@ func (*interim).processDocument$1$1$1
+//@   ensures[C01] @location_callback_keeps_frequency existingTf.frequency == old(existingTf.frequency)
+//@ func (*interim).processDocument$1$1$2
+//@   ensures[C01] @location_callback_keeps_frequency newTf.frequency == old(newTf.frequency)
+//@ func (*interim).processDocument$1$1
+//@   at call:(github.com/blugelabs/bluge_segment_api.FieldTerm).EachLocation#0 ghostset prevfreq(existingTf) = existingTf.frequency
+//@   at store:tokenFreq.frequency#0 lemma[C01] existingTf.frequency == prevfreq(existingTf) + termFreq(term)
+//@   at mapupdate#0 lemma[C01] newTf.frequency == termFreq(term)
+//@
+//@ // ---- C05: the locations delivered are exactly the ones decoded for this posting, in order
+//@ // (the frequency only bounds them: a composite field may carry fewer locations than occurrences) ----
+//@ func (*PostingsIterator).nextAtOrAfter
+//@   loop 0 invariant[C05] @delivered_locations_count j >= 0 && len(rv.locs) == j
+//@   loop 0 invariant[C05] @delivered_locations_order forall(k, 0 <= k && k < j ==> cast(rv.locs[k], "*Location") == i.nextLocs[k])
+//@
+//@ // ---- C13/C15: building an iterator writes no bitmap that existed before the call: a reused
+//@ // iterator's previous bitmap may be another list's own postings (or one installed by the caller) ----
+//@ func (*PostingsList).iterator
+//@   ensures[C13,C15] @no_existing_bitmap_written forall(b, pat(bset(b), !fresh(b) ==> bset(b) == old(bset(b)) && brep(b) == old(brep(b))))
+//@
+//@ // ---- C15: the merged field list is built in memory of its own: the input segments' field
+//@ // lists (returned by Fields() without copying) are only read ----
+//@ func mergeFields
+//@   loop 2 invariant[C15] fresh(fields) && forall(j, 0, len(segments), segments[j] != nil ==> segments[j].fieldsInv == old(segments[j].fieldsInv) && contents(segments[j].fieldsInv) == old(contents(segments[j].fieldsInv)))
+//@   ensures[C15] @input_field_lists_untouched forall(j, 0, len(segments), segments[j] != nil ==> segments[j].fieldsInv == old(segments[j].fieldsInv) && contents(segments[j].fieldsInv) == old(contents(segments[j].fieldsInv)))
